@@ -198,6 +198,11 @@ class Task:
         version = self.version
         # Figure out whether the connection should be closed.
         connection = self.request.headers.get("CONNECTION", "").lower()
+
+        if getattr(self.request, "connection_close", False):
+            # the parser found framing after which the connection can not be
+            # reused (e.g. Content-Length together with Transfer-Encoding)
+            self.set_close_on_finish()
         response_headers = []
         content_length_header = None
         date_header = None
